@@ -199,6 +199,56 @@ def main():
                  observed=dict(contacted=seen.get("peer"), request_line_sent=repr(seen.get("line")), expected=repr(want),
                                violated=["the request line sent to the upstream differs from the mapped URL (percent-escapes reinterpreted)"]),
                  clause="C17: the path and query the client asked for are forwarded unaltered")
+    # ONE proxy location (one long-lived client) over a history of requests: what the upstream answered earlier - redirects to other
+    # servers included - never changes where a later request goes
+    answers = [b"31 gemini://elsewhere.example:7000/new\r\n", b"30 gemini://other.example/tmp\r\n", b"31 gemini://backend.example:1966/moved\r\n", b"20 text/gemini\r\nok\n",
+               b"51 nope\r\n", b"31 //elsewhere.example/x\r\n", b"44 60\r\n", b"10 input\r\n"]
+    for first in range(len(answers)):
+        tried += 1
+        h = ProxyHandler(upstream="gemini://backend.example:1966", prefix="/app", strip_prefix=True, timeout=0.5)
+        log = []
+
+        async def go2():
+            loop = asyncio.get_running_loop()
+            script = [answers[first]] + [b"20 text/gemini\r\nok\n", answers[first], b"20 text/gemini\r\nok\n"]
+
+            async def create_connection(factory, host=None, port=None, **kw):
+                proto = factory()
+                entry = {"peer": (host, port), "line": b""}
+                log.append(entry)
+                ans = script[min(len(log) - 1, len(script) - 1)]
+
+                class T:
+                    def write(self, d):
+                        entry["line"] += bytes(d)
+                        loop.call_soon(proto.data_received, ans)
+                        loop.call_soon(proto.connection_lost, None)
+
+                    def close(self):
+                        pass
+
+                    def is_closing(self):
+                        return False
+
+                    def get_extra_info(self, n, default=None):
+                        return default
+                proto.connection_made(T())
+                return T(), proto
+            loop.create_connection = create_connection
+            for u in ("gemini://front.example/app/page?x=1", "gemini://front.example/app/page?x=1", "gemini://front.example/app/other", "gemini://front.example/app/page?x=1"):
+                try:
+                    await h._handle_async(GeminiRequest.from_line(u))
+                except Exception:  # noqa: BLE001
+                    pass
+        asyncio.run(go2())
+        wants = [b"gemini://backend.example:1966/page?x=1\r\n", b"gemini://backend.example:1966/page?x=1\r\n", b"gemini://backend.example:1966/other\r\n", b"gemini://backend.example:1966/page?x=1\r\n"]
+        got = [(e["peer"], e["line"]) for e in log]
+        if got != [(("backend.example", 1966), w) for w in wants]:
+            done(confirmed=True, input=dict(upstream="gemini://backend.example:1966", prefix="/app", strip_prefix=True, first_answer_of_upstream=repr(answers[first]),
+                                            requests=["/app/page?x=1", "/app/page?x=1", "/app/other", "/app/page?x=1"], handler="one ProxyHandler for the whole history"),
+                 observed=dict(connections=[(list(pr), repr(l)) for pr, l in got], expected_request_lines=[repr(w) for w in wants],
+                               violated=["a later request of the same location went to another server / another URL than the configured upstream's"]),
+                 clause="C17: for every incoming request a proxy location contacts only its configured upstream, with the mapped URL")
     done(confirmed=False, reason="no case in the bank violates a clause", tried=tried)
 
 
